@@ -5,7 +5,7 @@ import pipeline as P
 from core import BaseProp, Verdict
 from proto import T
 
-RULE = ('random tables x strings (valid, malformed, with unknown licenses, with misplaced exceptions, a single known key alone in any '
+RULE = ('random tables x strings (valid, malformed, with unknown licenses - also 5 to 60 different ones in one expression -, with misplaced exceptions, a single known key alone in any '
         'case), both strictness settings; Spec on the real code: parse(validate=True) raises "Unknown license key(s)" exactly when the '
         'unknown-license listing is non-empty and names those keys in order; validate() has no errors exactly when '
         'parse(validate=True) with the same strictness succeeds, then normalized = rendering of that parse, otherwise normalized '
@@ -22,6 +22,15 @@ class Prop(BaseProp):
             text = gen.recase(rng, rng.choice(table)[0])
             if rng.random() < 0.5:
                 text = ' ' + text + ' '
+        elif r < 0.2:
+            # many unknown licenses in one expression (every one of them has to be named, in order)
+            n = rng.choice([5, 9, 12, 13, 14, 17, 20, 33, 60])
+            ks = ['u%d' % i for i in range(n)]
+            rng.shuffle(ks)
+            keys = [k for k, _, _ in table]
+            items = ks + [rng.choice(keys) for _ in range(rng.randint(0, 3)) if keys] + [rng.choice(ks) for _ in range(rng.randint(0, 3))]
+            rng.shuffle(items)
+            text = rng.choice([' and ', ' or ', ' AND ']).join(items)
         elif r < 0.55:
             keys = [k for k, _, _ in table] or ['mit']
             t = gen.gen_tree(rng, keys + ['foo', 'zq bar'], depth=2, maxar=3, flags=False)
